@@ -157,11 +157,12 @@ def stems_variants(ctx, rule, string_forms=True):
         ex = P.Extractor(repo, atomic={target, "ural.lru.stems.lru_stems_from_parsed_url"})
         rets = [r for r in ex.function(ref) if r.kind == "return"]
         site = st.site(ref.node)
-        ok = len(rets) == 1 and rets[0].term[0] == "call" and rets[0].term[1] == "ural.lru.stems.lru_stems_from_parsed_url"
+        top = P.strip_inl(rets[0].term) if len(rets) == 1 else None
+        ok = top is not None and top[0] == "call" and top[1] == "ural.lru.stems.lru_stems_from_parsed_url"
         ctx.ob(rule, fname + "/returns-stems-of-parsed", ok, "%s does not return lru_stems_from_parsed_url(...)" % fname, site)
         if not ok:
             continue
-        call = rets[0].term
+        call = top
         inner = call[2][0] if call[2] else dict(call[3]).get("parsed_url")
         kw = dict(call[3])
         ctx.ob(rule, fname + "/suffix_aware-forwarded", kw.get("suffix_aware") == ("param", "suffix_aware") or (len(call[2]) > 1 and call[2][1] == ("param", "suffix_aware")),
